@@ -244,6 +244,15 @@ _FOREIGN_CHARACTER_CASES = {
 }  # fmt: skip
 
 
+def _letter_case(char: str) -> int:
+    """The case of a word, as far as the letter determines it (letters of scripts without case do not)."""
+    if char.isupper():
+        return 1
+    if char.islower():
+        return 0
+    return -1
+
+
 def _foreign_character_case(controlseq_name: List[str], case: int) -> int:
     """The case of a word after the control sequence of a special character ended."""
     if case == -1:
@@ -358,10 +367,7 @@ def parse_single_name_into_parts(name, strict=True):
                         and escaped.isalpha()
                         and (level == 0 or (specialchar and not controlseq))
                     ):
-                        if escaped.isupper():
-                            case = 1
-                        else:
-                            case = 0
+                        case = _letter_case(escaped)
                     bracestart = False
 
                     # Copy the escape to the current word and go to the next
@@ -429,10 +435,7 @@ def parse_single_name_into_parts(name, strict=True):
             # If it's a special character, can we use it for a case?
             elif specialchar:
                 if (case == -1) and char.isalpha():
-                    if char.isupper():
-                        case = 1
-                    else:
-                        case = 0
+                    case = _letter_case(char)
 
             # Append the character and move on.
             word.append(char)
@@ -462,10 +465,7 @@ def parse_single_name_into_parts(name, strict=True):
         # Regular character.
         word.append(char)
         if (case == -1) and char.isalpha():
-            if char.isupper():
-                case = 1
-            else:
-                case = 0
+            case = _letter_case(char)
 
     # Unterminated brace?
     if level:
